@@ -114,7 +114,13 @@ partial def lexprOf (env : Env) (j : Json) : Except String Expr := do
 
 /-- `XExprEvaluator`: value of a condition that depends on no random field (`none` = X) -/
 def foldCond (env : Env) (c : Expr) : Option Bool :=
-  if Bounds.isNonRand env.Γ c then (Bounds.pyEval env.ρ c).map (· != 0) else none
+  -- the elements of a list hold the bit pattern of their value: a signed field is read as the value
+  -- its bits stand for (`XExprEvaluator.visit_scalar_field`)
+  let ρs : Nat → Int := fun i =>
+    let t := env.Γ i
+    let v := env.ρ i
+    if t.s && t.w > 0 && v ≥ (2 : Int) ^ (t.w - 1) then v - (2 : Int) ^ t.w else v
+  if Bounds.isNonRand env.Γ c then (Bounds.pyEval ρs c).map (· != 0) else none
 
 mutual
 /-- statements a (possibly list-level) statement stands for; `inForeach` = inside an expansion,
